@@ -32,7 +32,7 @@
 (* tree) and repaired by stamping results with the number of recoveries    *)
 (* (Versioned = TRUE), for which the property holds again.                 *)
 (***************************************************************************)
-EXTENDS Earley
+EXTENDS RelSets
 
 CONSTANTS GrammarsC,     \* a sequence of raw definitions to explore
           TermsC,        \* token alphabet
@@ -45,41 +45,6 @@ CONSTANTS GrammarsC,     \* a sequence of raw definitions to explore
 VARIABLES gi, arr, cur, memo, hits, ver
 
 A_(g) == AugE(Gram(GrammarsC[g]))
-
-RhsR(A, r) == A.rules[r + 1].r
-LhsR(A, r) == A.rules[r + 1].l
-
-(* all situations of a set: start ones plus predicted (distance 0) and advances over nullable symbols *)
-FullStep(A, N, S) ==
-  S \cup UNION {LET rhs == RhsR(A, x[1]) IN
-                IF x[2] >= Len(rhs) THEN {}
-                ELSE LET X == rhs[x[2] + 1] IN
-                     IF IsT(A, X) THEN {}
-                     ELSE {<<r - 1, 0, 0>> : r \in RulesOf(A, X)} \cup (IF X \in N THEN {<<x[1], x[2] + 1, x[3]>>} ELSE {})
-                : x \in S}
-RECURSIVE FullC(_, _, _)
-FullC(A, N, S) == LET S2 == FullStep(A, N, S) IN IF S2 = S THEN S ELSE FullC(A, N, S2)
-
-TailNull(A, N, x) == \A q \in (x[2] + 1)..Len(RhsR(A, x[1])) : RhsR(A, x[1])[q] \in N
-
-(* build_new_set: shift symbol t from the last set of list p; n = index of the new set *)
-CompleteStep(A, N, p, S) ==
-  LET n == Len(p) IN
-  S \cup UNION {IF TailNull(A, N, x) /\ x[3] >= 1 /\ x[3] <= n
-                THEN LET O == FullC(A, N, p[n - x[3] + 1]) IN
-                     {<<y[1], y[2] + 1, y[3] + x[3]>> :
-                        y \in {y \in O : y[2] < Len(RhsR(A, y[1])) /\ RhsR(A, y[1])[y[2] + 1] = LhsR(A, x[1])}}
-                ELSE {}
-                : x \in S}
-RECURSIVE CompleteC(_, _, _, _)
-CompleteC(A, N, p, S) == LET S2 == CompleteStep(A, N, p, S) IN IF S2 = S THEN S ELSE CompleteC(A, N, p, S2)
-
-Scanned(A, N, S, t) ==
-  {<<x[1], x[2] + 1, x[3] + 1>> : x \in {x \in FullC(A, N, S) : x[2] < Len(RhsR(A, x[1])) /\ RhsR(A, x[1])[x[2] + 1] = t}}
-
-Build(A, N, p, t) == CompleteC(A, N, p, Scanned(A, N, p[Len(p)], t))
-
-StartSet(A) == {<<r - 1, 0, 0>> : r \in RulesOf(A, AX)}
 
 (* The parser list is an array that is never cleared: arr holds everything ever written (its length is the
    high-water mark), cur is the index (0-based) of the current last set.  After a recovery moved cur back,
